@@ -211,7 +211,6 @@ class TaskingEngine(metaclass=ABCMeta):
         Args:
             sensor_info_list (list): list of dict
         """
-        self.sensor_changes = {}
         for sensor_info in sensor_info_list:
             self.sensor_changes[sensor_info["sensor_id"]] = {
                 "boresight": sensor_info["boresight"],
